@@ -46,7 +46,35 @@ var OwnOps = []OwnOp{
 	{"b=[]byte(str)", "b = []byte(str)"},
 	{"w=v{p}", "v = zzW{@N@, p}\n\tw = v"},
 	{"p=w.ptr", "p = w.ptr"},
+	// --- extension: identity / no-op / empty-operand variants, aliases, swaps, field addresses ---
+	{"u=str", "u = str"},
+	{"str=str+e", "str = str + zzE()"},
+	{"str=u[:0]+str", "str = u[:0] + str"},
+	{"str=string(b)", "str = string(b)"},
+	{"b=[]byte(e)", "b = []byte(zzE())"},
+	{"u=str[1:]", "if len(str) > 0 {\n\t\tu = str[1:]\n\t}"},
+	{"str,u=u,str", "str, u = u, str"},
+	{"s=append(s)", "s = append(s)"},
+	{"s=append(s,t[:0]...)", "s = append(s, t[:0]...)"},
+	{"s=s[:]", "s = s[:]"},
+	{"s=s[0:0]", "s = s[0:0]"},
+	{"s=s[len(s):]", "s = s[len(s):]"},
+	{"copy(s,t)", "copy(s, t)"},
+	{"copy(s,t[:0])", "copy(s, t[:0])"},
+	{"s,t=t,s", "s, t = t, s"},
+	{"q=m[absent]", "q = m[2]"},
+	{"i=i", "i = i"},
+	{"p=p", "p = p"},
+	{"f=f", "f = f"},
+	{"v=v", "v = v"},
+	{"p,q=q,p", "p, q = q, p"},
+	{"r=&p.v", "if p != nil {\n\t\tr = &p.v\n\t}"},
+	{"r=&walk(p).v", "for n, x := 0, p; x != nil && n < 3; n, x = n+1, x.next {\n\t\tr = &x.v\n\t}"},
 }
+
+// OwnCoreOps is the size of the original alphabet (a prefix of OwnOps); the operations after it
+// are the extension.
+const OwnCoreOps = 21
 
 // OwnOpIndex returns the index of a named op (-1 if unknown).
 func OwnOpIndex(name string) int {
@@ -108,11 +136,18 @@ next:
 	return out
 }
 
-// OwnHistories enumerates every history with 1 <= len <= maxLen, shortest first, lexicographic.
+// OwnHistories enumerates every history with 1 <= len <= maxLen over the full alphabet, shortest
+// first, lexicographic.
 func OwnHistories(maxLen int, seeded bool) []OwnHistory {
+	return OwnHistoriesN(len(OwnOps), 1, maxLen, seeded)
+}
+
+// OwnHistoriesN enumerates every history with minLen <= len <= maxLen over the first nops
+// operations of the alphabet.
+func OwnHistoriesN(nops, minLen, maxLen int, seeded bool) []OwnHistory {
 	var out []OwnHistory
-	n := len(OwnOps)
-	for l := 1; l <= maxLen; l++ {
+	n := nops
+	for l := max(minLen, 1); l <= maxLen; l++ {
 		idx := make([]int, l)
 		for {
 			out = append(out, OwnHistory{Seeded: seeded, Ops: append([]int(nil), idx...)})
@@ -129,6 +164,27 @@ func OwnHistories(maxLen int, seeded bool) []OwnHistory {
 				break
 			}
 		}
+	}
+	return out
+}
+
+// OwnIsCore reports whether the history uses only the core alphabet.
+func OwnIsCore(h OwnHistory) bool {
+	for _, o := range h.Ops {
+		if o >= OwnCoreOps {
+			return false
+		}
+	}
+	return true
+}
+
+// OwnSpace is the frozen enumeration used by C11: every history of length <= fullLen over the
+// full alphabet plus every history of length <= coreLen over the core alphabet (those not
+// already covered), shortest first. The set is closed under subsequences.
+func OwnSpace(fullLen, coreLen int, seeded bool) []OwnHistory {
+	out := OwnHistories(fullLen, seeded)
+	if coreLen > fullLen {
+		out = append(out, OwnHistoriesN(OwnCoreOps, fullLen+1, coreLen, seeded)...)
 	}
 	return out
 }
@@ -151,6 +207,17 @@ func zzMark(k int32) {}
 func zzIter(k int32) {}
 
 func zzRun(n int32) {}
+
+var zzZero int32
+
+// zzE: an empty string computed at run time (null block: a slice of a literal).
+func zzE() string { return "e"[:zzZero] }
+
+// zzHeapStr: a string whose bytes live in a heap block (built at run time).
+func zzHeapStr() string {
+	b := []byte{97, 98}
+	return string(b)
+}
 
 func zzG(x *zzT) *zzT { return x }
 
@@ -184,7 +251,7 @@ func zzObsT(p *zzT) {
 	}
 }
 
-func zzObs(p, q *zzT, s, t []*zzT, m map[int32]*zzT, i interface{}, f func() int32, str string, b []byte, v, w zzW) {
+func zzObs(p, q *zzT, s, t []*zzT, m map[int32]*zzT, i interface{}, f func() int32, str string, b []byte, v, w zzW, u string, r *int32) {
 	print("p")
 	zzObsT(p)
 	print(" q")
@@ -238,6 +305,14 @@ func zzObs(p, q *zzT, s, t []*zzT, m map[int32]*zzT, i interface{}, f func() int
 	print(" w")
 	print(w.id)
 	zzObsT(w.ptr)
+	print(" u")
+	print(u)
+	if r == nil {
+		print(" r-")
+	} else {
+		print(" r")
+		print(*r)
+	}
 	println()
 }
 
@@ -251,14 +326,18 @@ const ownVars = `	var p, q *zzT
 	str := "a"
 	var b []byte
 	var v, w zzW
+	var u string
+	var r *int32
 `
 
 const ownSeed = `	p = &zzT{v: 1}
 	s = append(s, &zzT{v: 2}, &zzT{v: 3})
 	m[1] = &zzT{v: 4}
+	str = zzHeapStr()
+	u = str
 `
 
-const ownObsCall = "zzObs(p, q, s, t, m, i, f, str, b, v, w)"
+const ownObsCall = "zzObs(p, q, s, t, m, i, f, str, b, v, w, u, r)"
 
 func ownStmt(op, pos int) string {
 	return strings.ReplaceAll(OwnOps[op].Stmt, "@N@", fmt.Sprint(10*(pos+1)))
@@ -318,6 +397,8 @@ const ownReset = `		p = nil
 		b = nil
 		v = zzW{}
 		w = zzW{}
+		u = ""
+		r = nil
 `
 
 // OwnLoopCase renders body h in the given shape: helper function(s) zzLoop<idx>(n) plus
@@ -475,8 +556,20 @@ func (md *OwnModel) Apply(op int) {
 		}
 	case "f=closure(p)":
 		md.f = true
-	case "f()", "defer-use(p)", "str=str+x", "b=[]byte(str)", "p=g(p)":
-		// no change to the reference graph
+	case "q=m[absent]":
+		md.q = md.m[2]
+	case "p,q=q,p":
+		md.p, md.q = md.q, md.p
+	case "s,t=t,s":
+		md.s, md.t = md.t, md.s
+	case "s=s[0:0]", "s=s[len(s):]":
+		md.s = md.s[:0:0]
+	case "f()", "defer-use(p)", "str=str+x", "b=[]byte(str)", "p=g(p)",
+		"u=str", "str=str+e", "str=u[:0]+str", "str=string(b)", "b=[]byte(e)", "u=str[1:]", "str,u=u,str",
+		"s=append(s)", "s=append(s,t[:0]...)", "s=s[:]", "copy(s,t)", "copy(s,t[:0])",
+		"i=i", "p=p", "f=f", "v=v", "r=&p.v", "r=&walk(p).v":
+		// no change to the reference graph between nodes (slice elements are never loaded back
+		// into a pointer variable, so the element lists do not matter for cycle-freeness)
 	case "w=v{p}":
 		md.vp, md.wp = md.p, md.p
 	case "p=w.ptr":
